@@ -23,7 +23,7 @@ REQUIRED = ["R_equals_gram_uniform", "R_equals_gram_dimwise", "R_masslumped", "R
 MIN_NONTRIVIAL = {"quick": 250, "thorough": 4000}
 CHUNK = {"quick": 25, "thorough": 200}
 ASSUMPTIONS = ["data pre-scaled into the unit cube (pre_scaled_data=True); labels are +-1",
-               "numeric (nquad) matrix entries are compared on tiny grids in the thorough tier only"]
+               "numeric (nquad) matrix entries are compared on tiny grids (quick: 1-D, <= 4 points; thorough: <= 9 points)"]
 
 
 def cases(tier, seed):
@@ -185,7 +185,9 @@ def run_dimwise(case, res):
     X, labels, style = gen_data(rng, d, xs)
     lam = rng.choice([0.0, 1e-3, 0.1, 1.0])
     ml = rng.random() < 0.25
-    numeric = tier == "thorough" and N <= 9 and rng.random() < 0.3
+    numeric = (N <= 9 and rng.random() < 0.3) if tier == "thorough" else (N <= 4 and d == 1 and rng.random() < 0.5)
+    if numeric:
+        res.count("numeric_matrix_entries")
     cfg = {"path": "dimwise", "d": d, "n": ns, "N": N, "M": len(X), "data": style, "lambda": lam, "masslumping": ml,
            "labels": labels is not None, "numeric": numeric, "levels": levs}
     res.sample = {"config": cfg}
